@@ -268,7 +268,7 @@ def check(prog, run):
             unknown = any((k.endswith(" is None") and v is True) or (k != boolx.CALLS and v is False and k.replace(".", "_").isidentifier())
                           for k, v in env.items())
             if not (reported or unknown):
-                cond = ", ".join("%s=%s" % kv for kv in sorted(env.items()) if kv[0] != boolx.CALLS)
+                cond = ", ".join("%s=%s" % kv for kv in sorted(env.items()) if kv[0] not in boolx.META)
                 run.report(r, "%s:%s:silent-accept(%s)" % (voc.module.name, m.qualname, accept), m.where(st) if st is not None else m.where(),
                            "%s can finish without reporting although the expected type is not a %s (when %s): the literal passes "
                            "validation and the executor's coercion of it raises" % (hname, accept, cond or "always"))
